@@ -35,6 +35,15 @@ def mk_elem(t):
     if t[0] == "each":
         # element of a mapped sequence = the body (which talks about elem(recv))
         return t[2]
+    if t[0] == "call" and t[1] == "filter_map" and len(t[2]) == 2 and t[2][1][0] == "lam":
+        # the payload of the closure's Some(..) (Some is transparent), expressed over elem(recv)
+        return t[2][1][1]
+    if t[0] == "call" and t[1] in ("filter", "inspect") and len(t[2]) == 2:
+        return mk_elem(t[2][0])
+    if t[0] == "call" and t[1] == "zip" and len(t[2]) == 2:
+        return ("tuple", (mk_elem(t[2][0]), mk_elem(t[2][1])))
+    if t[0] == "call" and t[1] == "enumerate" and len(t[2]) == 1:
+        return ("tuple", (("index", t[2][0]), mk_elem(t[2][0])))
     return ("elem", t)
 
 
@@ -74,6 +83,55 @@ def mk_orelse(a, b):
     return ("orelse", a, b)
 
 
+def mk_vproj(variant, i, t):
+    if t[0] == "ctor" and t[1] == variant and i < len(t[2]):
+        return t[2][i]
+    return ("vproj", variant, i, t)
+
+
+_CMP_NEG = {">=": "<", "!=": "=="}
+
+
+def canon_cond(t):
+    """(canonical condition, polarity): only `<` and `==` comparisons, `==` operands ordered, no outer `not`."""
+    pol = True
+    while True:
+        if t[0] == "not":
+            t, pol = t[1], not pol
+            continue
+        if t[0] == "bin":
+            op, l, r = t[1], t[2], t[3]
+            if op == ">=":
+                t, pol = ("bin", "<", l, r), not pol
+            elif op == "<=":
+                t, pol = ("bin", "<", r, l), not pol
+            elif op == ">":
+                t = ("bin", "<", r, l)
+            elif op == "!=":
+                t, pol = ("bin", "==", l, r), not pol
+                continue
+            if t[1] == "==" and show(t[3]) < show(t[2]):
+                t = ("bin", "==", t[3], t[2])
+        return t, pol
+
+
+def mk_bin(op, l, r):
+    """comparisons are expressed with `<`, `==` (operands ordered) and `not`"""
+    if op in ("==", "!=", "<", ">", "<=", ">="):
+        c, pol = canon_cond(("bin", op, l, r))
+        return c if pol else ("not", c)
+    return ("bin", op, l, r)
+
+
+def mk_if(c, a, b):
+    c, pol = canon_cond(c)
+    if not pol:
+        a, b = b, a
+    if a == b:
+        return a
+    return ("if", c, a, b)
+
+
 def mk_each(recv, body, option_like=False):
     """`recv.map(|x| body)`.  For Option/Result receivers x is the payload = recv itself (transparent)."""
     if body == (recv if option_like else mk_elem(recv)):
@@ -88,6 +146,11 @@ def is_option_like(node):
     return ty.startswith(("core::option::Option<", "core::result::Result<", "&core::option::Option<", "&core::result::Result<"))
 
 
+OPTION_KEYS = {"Some", "None", "Ok", "Err", "_"}
+ERR = ("err",)
+NONE = ("ctor", "None", ())
+
+
 def mk_case(scrut, arms):
     """arms: list of (key, term, binds_something)"""
     d = {}
@@ -99,10 +162,28 @@ def mk_case(scrut, arms):
         d["_"] = d.pop("None")
     elif keys == {"Ok", "Err"} and not binds.get("Err"):
         d["_"] = d.pop("Err")
-    if set(d) == {"Some", "_"} and d["Some"] == scrut:
-        return mk_orelse(scrut, d["_"])
-    if set(d) == {"Ok", "_"} and d["Ok"] == scrut:
-        return mk_orelse(scrut, d["_"])
+    if set(d) <= OPTION_KEYS:
+        # error propagation (`?`, `let .. else { bail }`, `match { Ok(v) => v, Err(e) => return Err(e) }`, `.context(..)?`):
+        # the error arms of an Option/Result scrutinee are transparent, like `?`
+        live = {k: v for k, v in d.items() if v != ERR}
+        if len(live) == 1 and len(d) > 1:
+            (k, v), = live.items()
+            if k in ("Some", "Ok"):
+                return v
+    for pos in ("Some", "Ok"):
+        if set(d) == {pos, "_"}:
+            if d[pos] == scrut:
+                return mk_orelse(scrut, d["_"])
+            if d["_"] == NONE and pos == "Some":
+                return mk_each(scrut, d[pos], True)
+            # case(X, Some: case(Y, Some: A, _: R), _: R) with Y computed from X's payload = case(Y, Some: A, _: R)
+            inner = d[pos]
+            if inner[0] == "case" and dict(inner[2]).get("_") == d["_"] and set(dict(inner[2])) == {"Some", "_"} and contains(inner[1], scrut):
+                return inner
+            if inner[0] == "orelse" and inner[2] == d["_"] and contains(inner[1], scrut):
+                return inner
+    if len(d) == 1 and "_" in d:
+        return d["_"]
     return ("case", scrut, tuple(sorted(d.items())))
 
 
@@ -130,6 +211,10 @@ def show(t, depth=0):
         return "%s[%s]" % (s(t[1]), s(t[2]))
     if k == "proj":
         return "proj(%d, %s)" % (t[1], s(t[2]))
+    if k == "vproj":
+        return "proj(%s.%d, %s)" % (t[1], t[2], s(t[3]))
+    if k == "index":
+        return "index(%s)" % s(t[1])
     if k == "elem":
         return "elem(%s)" % s(t[1])
     if k == "tail":
@@ -175,6 +260,10 @@ def children(t):
         return [t[1], t[2]]
     if k == "proj":
         return [t[2]]
+    if k == "vproj":
+        return [t[3]]
+    if k == "index":
+        return [t[1]]
     if k in ("call", "ctor"):
         return list(t[2])
     if k == "struct":
@@ -247,7 +336,7 @@ class Norm:
         elif k == "ptuplestruct":
             v = p["res"].get("variant") or (p["res"].get("adt") or p["res"].get("path") or "?").rsplit("::", 1)[-1]
             for i, x in enumerate(p["pats"]):
-                self._bind(x, src, path + (("v", v, i),))
+                self._bind(x, src, path + (("v", v, i, bool(p["res"].get("variant"))),))
         elif k == "pstruct":
             for f in p["fields"]:
                 self._bind(f["pat"], src, path + (("f", f["name"]),))
@@ -347,6 +436,8 @@ class Norm:
                 return ("call", "err_of", (t,))
             if t[0] == "ctor" and t[1] == st[1]:
                 return t[2][st[2]]
+            if len(st) > 3 and st[3]:
+                return mk_vproj(st[1], st[2], t)      # payload of a (non-Option) enum variant: keep the variant name
             return mk_proj(st[2], t)
         if st[0] == "f":
             return mk_field(t, st[1])
@@ -392,7 +483,10 @@ class Norm:
         if k == "un":
             if n["op"] == "deref":
                 return T(n["e"])
-            return ("not" if n["op"] == "!" else "neg", T(n["e"]))
+            if n["op"] == "!":
+                c, pol = canon_cond(("not", T(n["e"])))
+                return c if pol else ("not", c)
+            return ("neg", T(n["e"]))
         if k == "cast":
             return ("cast", T(n["e"]))
         if k == "path":
@@ -420,8 +514,10 @@ class Norm:
         if k == "index":
             return ("idx", T(n["e"]), T(n["i"]))
         if k == "block":
-            if H.is_err_exit(n):
+            if not self._has_ret(n) and H.is_err_exit(n):
                 return ("err",)
+            if self._needs_fold(n):
+                return self.fold(n["stmts"], n.get("tail"), None, depth + 1)
             if "tail" in n:
                 return T(n["tail"])
             if n["stmts"] and H.diverges(n):
@@ -451,6 +547,8 @@ class Norm:
             if not c:
                 f = T(n["f"]) if "f" in n else ("opaque", "callee")
                 return ("call", "<indirect>", (f,) + tuple(T(a) for a in n["args"]))
+            if self.call_name(n) == "zip" and len(n["args"]) == 2 and is_option_like(n["args"][0]):
+                return ("tuple", (T(n["args"][0]), T(n["args"][1])))
             return mk_call(self.call_name(n), [T(a) for a in n["args"]])
         if k == "mcall":
             name = n["name"]
@@ -466,6 +564,14 @@ class Norm:
                     return recv
                 if ft[0] == "fn":
                     return mk_each(recv, mk_call(ft[1], [recv if opt else mk_elem(recv)]), opt)
+            if name == "and_then" and len(args) == 1 and is_option_like(n["recv"]):
+                a0 = H.peel(args[0])
+                if a0.get("k") == "closure":
+                    body = T(a0["body"])
+                    if contains(body, recv):
+                        return body          # Some iff recv is Some and the body is Some; the payload is the body's
+            if name == "zip" and len(args) == 1 and is_option_like(n["recv"]):
+                return ("tuple", (recv, T(args[0])))
             return mk_call(name, [recv] + [T(a) for a in args])
         if k == "if":
             c = H.peel(n["cond"], refs=False)
@@ -478,7 +584,7 @@ class Norm:
                 else:
                     arms.append(("_", ("unit",), False))
                 return mk_case(scrut, arms) if key != "_" else T(n["then"])
-            return ("if", T(n["cond"]), T(n["then"]), T(n["else"]) if "else" in n else ("unit",))
+            return mk_if(T(n["cond"]), T(n["then"]), T(n["else"]) if "else" in n else ("unit",))
         if k == "letexpr":
             return ("call", "<let>", (T(n["init"]),))
         if k == "match":
@@ -493,7 +599,7 @@ class Norm:
                 return arms[0][1]
             return mk_case(scrut, arms)
         if k == "bin":
-            return ("bin", n["op"], T(n["l"]), T(n["r"]))
+            return mk_bin(n["op"], T(n["l"]), T(n["r"]))
         if k == "ret":
             if H.is_err_exit(n):
                 return ("err",)
@@ -503,6 +609,170 @@ class Norm:
         if k in ("assign", "assignop", "let", "for", "loop"):
             return ("stmt",)
         return ("opaque", str(k))
+
+    # -- sequential folding: early returns, let-else, diverging lets, search loops
+    @staticmethod
+    def _has_ret(n):
+        """a `return` of a value (not an error exit) somewhere in n, closures excluded"""
+        return any(x.get("k") == "ret" and not H.is_err_exit(x) for x in H.walk(n, into_closures=False))
+
+    def _needs_fold(self, block):
+        for s in block["stmts"]:
+            s0 = H.peel(s, refs=False)
+            if s0.get("k") == "let" and ("els" in s0 or self._hoistable(s0)):
+                return True
+            if s0.get("k") in ("if", "match", "for", "block", "ret") and (self._has_ret(s0) or self._is_guard(s0)):
+                return True
+        return False
+
+    @staticmethod
+    def _is_guard(s0):
+        """`if c { <error exit> }` statement: part of the value's decision structure"""
+        return s0.get("k") == "if" and "else" not in s0 and H.diverges(s0["then"])
+
+    def _hoistable(self, let):
+        """`let x = match e { P => v, Q => <diverges> }` / `if c { v } else { <diverges> }`: (live arms, dead arms)"""
+        init = H.peel(let.get("init") or {}, refs=False) if "init" in let else {}
+        if init.get("k") == "match":
+            dead = [a for a in init["arms"] if H.diverges(a["body"])]
+            live = [a for a in init["arms"] if not H.diverges(a["body"])]
+            if dead and len(live) == 1 and "guard" not in live[0]:
+                return init, live, dead
+        return None
+
+    def bind_env(self, p, t):
+        """Bind the variables of pattern p to (projections of) term t, overriding the flow-insensitive binders."""
+        saved = self.binders
+        self.binders = {}
+        self._bind(p, ("term", t), ())
+        fresh = self.binders
+        self.binders = saved
+        for lid, (src, path, name) in fresh.items():
+            v = src[1]
+            for st in path:
+                v = self._project(v, st)
+            self.env[lid] = v
+
+    def value(self, e, depth=0):
+        """Term of the value an expression evaluates to, where `return v` inside it makes v the value."""
+        e0 = H.peel(e, refs=False)
+        k = e0.get("k")
+        if k == "block":
+            if not self._has_ret(e0) and H.is_err_exit(e0):
+                return ERR
+            return self.fold(e0["stmts"], e0.get("tail"), None, depth + 1)
+        if k == "ret":
+            if H.is_err_exit(e0):
+                return ERR
+            return self.value(e0["e"], depth + 1) if "e" in e0 else ("unit",)
+        if k in ("semi", "try"):
+            return self.value(e0["e"], depth + 1)
+        if k == "call" and (e0.get("callee") or {}).get("variant") in TRANSPARENT_CTORS and len(e0["args"]) == 1:
+            return self.value(e0["args"][0], depth + 1)
+        if k == "if" and self._has_ret(e0):
+            c = H.peel(e0["cond"], refs=False)
+            th = self.value(e0["then"], depth + 1)
+            el = self.value(e0["else"], depth + 1) if "else" in e0 else ("unit",)
+            if c.get("k") == "letexpr":
+                key, binds = self._pat_key(c["pat"])
+                return mk_case(self.term(c["init"]), [(key, th, binds), ("_", el, False)])
+            return mk_if(self.term(e0["cond"]), th, el)
+        if k == "match" and self._has_ret(e0):
+            arms = []
+            for a in e0["arms"]:
+                key, binds = self._pat_key(a["pat"])
+                arms.append((key, self.value(a["body"], depth + 1), binds))
+            return mk_case(self.term(e0["scrut"]), arms)
+        return self.term(e0, depth + 1)
+
+    def fold(self, stmts, tail, cont, depth=0):
+        """Value of `{ stmts; tail }` followed by `cont()` (None: the tail is the value)."""
+        if depth > 40:
+            return ("opaque", "deep")
+        if not stmts:
+            if cont is None:
+                return self.value(tail, depth + 1) if tail is not None else ("unit",)
+            if tail is not None:
+                return self.stmt(tail, cont, depth + 1)
+            return cont()
+        return self.stmt(stmts[0], lambda: self.fold(stmts[1:], tail, cont, depth + 1), depth + 1)
+
+    def stmt(self, s, nxt, depth=0):
+        s0 = H.peel(s, refs=False)
+        k = s0.get("k")
+        if k == "ret":
+            return self.value(s0, depth + 1)
+        if not self._has_ret(s0) and H.is_err_exit(s0):
+            return ERR
+        if k == "let" and "els" in s0:
+            key, binds = self._pat_key(s0["pat"])
+            return mk_case(self.term(s0["init"]), [(key, nxt(), binds), ("_", self.value(s0["els"], depth + 1), False)])
+        if k == "let":
+            h = self._hoistable(s0)
+            if h:
+                init, live, dead = h
+                scrut = self.term(init["scrut"])
+                arms = []
+                for a in dead:
+                    key, binds = self._pat_key(a["pat"])
+                    arms.append((key, self.value(a["body"], depth + 1), binds))
+                key, binds = self._pat_key(live[0]["pat"])
+                self.bind_env(s0["pat"], self.term(live[0]["body"]))
+                arms.append((key, nxt(), binds))
+                return mk_case(scrut, arms)
+            return nxt()
+        if k == "if" and (self._has_ret(s0) or self._is_guard(s0)):
+            c = H.peel(s0["cond"], refs=False)
+            blk = lambda b: self.fold(b["stmts"], b.get("tail"), nxt, depth + 1) if b.get("k") == "block" else self.stmt(b, nxt, depth + 1)
+            th = blk(H.peel(s0["then"], refs=False, blocks=False))
+            el = blk(H.peel(s0["else"], refs=False, blocks=False)) if "else" in s0 else nxt()
+            if c.get("k") == "letexpr":
+                key, binds = self._pat_key(c["pat"])
+                return mk_case(self.term(c["init"]), [(key, th, binds), ("_", el, False)])
+            return mk_if(self.term(s0["cond"]), th, el)
+        if k == "match" and self._has_ret(s0):
+            arms = []
+            for a in s0["arms"]:
+                key, binds = self._pat_key(a["pat"])
+                b = H.peel(a["body"], refs=False, blocks=False)
+                t = self.fold(b["stmts"], b.get("tail"), nxt, depth + 1) if b.get("k") == "block" else self.stmt(b, nxt, depth + 1)
+                arms.append((key, t, binds))
+            return mk_case(self.term(s0["scrut"]), arms)
+        if k == "block" and self._has_ret(s0):
+            return self.fold(s0["stmts"], s0.get("tail"), nxt, depth + 1)
+        if k == "for" and self._has_ret(s0):
+            return self._search_loop(s0, nxt, depth)
+        if self._has_ret(s0):
+            return ("opaque", "return-inside-%s" % k)
+        return nxt()
+
+    def _search_loop(self, f, nxt, depth):
+        """`for x in X { if P(x) { return R(x) } }` = first match: find / position / find_map."""
+        body = H.peel(f["body"], refs=False, blocks=False)
+        items = [H.peel(x, refs=False) for x in body.get("stmts", [])] + ([H.peel(body["tail"], refs=False)] if "tail" in body else [])
+        items = [x for x in items if not (x.get("k") == "let" and "els" not in x and not self._has_ret(x))]
+        if len(items) != 1 or items[0].get("k") != "if" or "else" in items[0] or not H.diverges(items[0]["then"]):
+            return ("opaque", "loop-with-return")
+        iff = items[0]
+        X = self.term(f["iter"])
+        R = self.value(iff["then"], depth + 1)
+        c = H.peel(iff["cond"], refs=False)
+        if c.get("k") == "letexpr":
+            g = self.term(c["init"])
+            first = ("call", "find_map", (X, ("lam", g)))
+            Rv = subst(R, g, first)
+        else:
+            cond = self.term(iff["cond"])
+            if X[0] == "call" and X[1] == "enumerate":
+                Y = X[2][0]
+                first = ("call", "position", (Y, ("lam", cond)))
+                Rv = subst(R, ("index", Y), first)
+                if contains(subst(R, ("index", Y), ("lit", "<position>")), mk_elem(Y)):
+                    return ("opaque", "search-loop-uses-element")
+            else:
+                first = ("call", "find", (X, ("lam", cond)))
+                Rv = subst(R, mk_elem(X), first)
+        return mk_case(first, [("Some", Rv, True), ("_", nxt(), False)])
 
     def _pat_key(self, p):
         """(key, binds?) of a pattern for `case`: variant name, literal, tuple of keys, or `_`."""
@@ -517,6 +787,8 @@ class Norm:
             subs = p["pats"] if k == "ptuplestruct" else [f["pat"] for f in p["fields"]]
             inner = [self._pat_key(x)[0] for x in subs]
             if all(x == "_" for x in inner):
+                if not p["res"].get("variant"):
+                    return "_", binds             # a struct pattern with irrefutable fields is irrefutable
                 return v, binds
             return "%s(%s)" % (v, ",".join(inner)), binds
         if k == "pexpr":
@@ -539,13 +811,48 @@ class Norm:
 
 # ------------------------------------------------------------------------------------------- result of a function
 def result_term(nz, body_root=None):
-    """Term of the function's value when the body is a pure expression (lets + tail).  None if the body
-    has early returns other than error exits (then the rule must use the event helpers)."""
+    """Term of the function's value.  Early returns, let-else, guards and search loops are folded into the decision
+    structure (case / if / find); None only if a `return` sits in a construct the folding does not understand."""
     root = body_root if body_root is not None else nz.root
-    for n in H.walk(root, into_closures=False):
-        if n.get("k") == "ret" and not H.is_err_exit(n):
-            return None
-    return nz.term(root)
+    t = nz.value(root)
+    if any(x[0] == "opaque" and str(x[1]).startswith(("return-inside", "loop-with-return", "search-loop")) for x in subterms(t)):
+        return None
+    return t
+
+
+def subst(t, old, new):
+    """Replace every occurrence of sub-term `old` in t by `new` (re-applying the smart constructors is not needed for the
+    shapes this is used on: projections of loop variables)."""
+    if t == old:
+        return new
+    k = t[0] if isinstance(t, tuple) and t else None
+    if k in ("f",):
+        return mk_field(subst(t[1], old, new), t[2])
+    if k in ("elem", "not", "neg", "lam", "cast", "ret", "repeat", "index"):
+        return (k, subst(t[1], old, new)) + tuple(t[2:])
+    if k == "tail":
+        return ("tail", subst(t[1], old, new), t[2])
+    if k == "idx":
+        return ("idx", subst(t[1], old, new), subst(t[2], old, new))
+    if k == "proj":
+        return mk_proj(t[1], subst(t[2], old, new))
+    if k == "vproj":
+        return mk_vproj(t[1], t[2], subst(t[3], old, new))
+    if k in ("call", "ctor"):
+        return (k, t[1], tuple(subst(a, old, new) for a in t[2]))
+    if k == "struct":
+        return ("struct", t[1], tuple((n, subst(v, old, new)) for n, v in t[2]))
+    if k in ("tuple", "array"):
+        return (k, tuple(subst(a, old, new) for a in t[1]))
+    if k in ("each", "orelse", "omap"):
+        return (k, subst(t[1], old, new), subst(t[2], old, new))
+    if k == "case":
+        return ("case", subst(t[1], old, new), tuple((n, subst(v, old, new)) for n, v in t[2]))
+    if k == "if":
+        return ("if", subst(t[1], old, new), subst(t[2], old, new), subst(t[3], old, new))
+    if k == "bin":
+        return ("bin", t[1], subst(t[2], old, new), subst(t[3], old, new))
+    return t
 
 
 # ------------------------------------------------------------------------------------------- reference-term parser
@@ -706,15 +1013,22 @@ class _Parser:
         if nm == "omap":
             return mk_each(a[0], a[1], True)
         if nm == "proj":
+            if a[0][0] == "proj" and a[0][2][0] == "lit":          # proj(Variant.0, x)
+                return mk_vproj(a[0][2][1], a[0][1], a[1])
             return mk_proj(a[0][1], a[1])
+        if nm == "index":
+            return ("index", a[0])
         if nm == "tail":
             return ("tail", a[0], a[1][1])
         if nm == "if":
-            return ("if", a[0], a[1], a[2])
-        if nm in ("not", "neg", "lam", "cast", "repeat", "ret"):
+            return mk_if(a[0], a[1], a[2])
+        if nm == "not":
+            c, pol = canon_cond(("not", a[0]))
+            return c if pol else ("not", c)
+        if nm in ("neg", "lam", "cast", "repeat", "ret"):
             return (nm, a[0])
         if nm == "bin":
-            return ("bin", a[0][1], a[1], a[2])
+            return mk_bin(a[0][1], a[1], a[2])
         if nm in ("err", "unit", "diverge", "stmt"):
             return (nm,)
         return mk_call(nm, a)
@@ -843,7 +1157,8 @@ def cond_terms(nz, root, node):
         if kind == "iflet":
             out.append(("iflet", nz.term(c["init"]), extra))
         elif kind in ("if", "after-exit"):
-            out.append(("if", nz.term(c), extra))
+            t, pol = canon_cond(nz.term(c))
+            out.append(("if", t, extra if pol else not extra))
         elif kind == "letelse":
             out.append(("letelse", nz.term(c["init"]), True))
         elif kind == "arm":
@@ -932,3 +1247,60 @@ def to_formula(t, B):
     if t[0] == "lit" and isinstance(t[1], bool):
         return ("const", t[1])
     return ("atom", show(t))
+
+
+def cond(kind, t, pol=True):
+    """A reference path condition in the canonical form `cond_terms` produces."""
+    if kind == "if":
+        t, p = canon_cond(t)
+        return ("if", t, pol if p else not pol)
+    return (kind, t, pol)
+
+
+def holds_at(conds, t, pol=True):
+    """The (canonicalised) boolean t is known to have value `pol` under the path conditions."""
+    t, p = canon_cond(t)
+    want = pol if p else not pol
+    return any(kind == "if" and c == t and cp == want for kind, c, cp in conds)
+
+
+def table_entries(R, rid, what, b, nz, t):
+    """Entries put into a freshly built table, whatever the construction:
+         * a mutable local, created empty, with exactly one `insert(k, v)` (any other mutation is unrecognised);
+         * `<iterator of (k, v)>.collect()` / `from_iter`.
+       -> [(key term, value term, span)] or None (anchor failure reported)."""
+    if t and t[0] == "local":
+        lid = t[1]
+        muts = mutations_of(b["body"], lid)
+        ins = [m for m in muts if m.get("k") == "mcall" and m["name"] == "insert"]
+        other = [m for m in muts if m not in ins and not (m.get("k") == "mcall" and m["name"] in ("len", "is_empty"))]
+        for m in other:
+            R.unrecognised(rid, what, "mutation of the table other than one insert: %s" % H.render(m), m.get("sp"))
+        if len(ins) != 1:
+            R.inst(rid, "%s:single-insert" % what, False, sp=b["sp"], expect="exactly one insert", got=len(ins))
+            return None
+        init = nz.init_term(lid)
+        R.inst(rid, "%s:starts-empty" % what, init in (("call", "IndexMap::new", ()), ("call", "IndexMap::default", ())) or
+               (bool(init) and init[0] == "call" and init[1] == "IndexMap::with_capacity"), sp=b["sp"], expect="IndexMap::new()",
+               got=show(init) if init else None)
+        return [(nz.term(ins[0]["args"][0]), nz.term(ins[0]["args"][1]), ins[0]["sp"])]
+    if t and t[0] == "call" and t[1] in ("collect", "from_iter") and len(t[2]) == 1:
+        e = mk_elem(t[2][0])
+        if e[0] == "tuple" and len(e[1]) == 2:
+            R.inst(rid, "%s:starts-empty" % what, True, sp=b["sp"], nontrivial=False, detail="collected into a fresh table")
+            return [(e[1][0], e[1][1], b["sp"])]
+    R.anchor(rid, "%s is a table built by one insert per entry or by collect()" % what, False, b["sp"])
+    return None
+
+
+def local_callees(crate, root):
+    """{callee key: (name, body record)} for calls (fn or method) into functions of the same crate."""
+    out = {}
+    for n in H.walk(root):
+        if n.get("k") in ("call", "mcall"):
+            c = n.get("callee") or {}
+            for key in (c.get("inst_key"), c.get("key")):
+                if key and key in crate.by_key:
+                    out[key] = (Norm.call_name(n), crate.by_key[key])
+                    break
+    return out
